@@ -186,11 +186,15 @@ package mp4
 // hdr.Size < 1<<32, so the payload is at most 1<<32 - 1 - 8 bytes. ASSUMPTION: also with a 16-byte header the payload is at most
 // 1<<32 - 1 - 8 bytes (otherwise Size() writes m.LargeSize, which the schema's assigns clause forbids).
 //@ pred boxOK@MdatBox(m *MdatBox) = m.lazyDataSize == 0 && uint64(mdatLen(m, 0)) <= 4294967287
+// Size(): 8 + payload (the lazy size when set, else the data length), switching LargeSize on when the payload does not fit a
+// 32-bit size field, plus 8 when LargeSize is (then) set.
+//@ spec mdatData(m *MdatBox) uint64 = ite(m.lazyDataSize > 0, m.lazyDataSize, uint64(mdatLen(m, 0)))
 //@ func (*MdatBox).Size
 //@   pure
-//@   requires boxOK(m)
-//@   ensures result == uint64(mdatLen(m, ite(m.LargeSize, 16, 8)))
-//@   assigns nothing
+//@   ensures m.LargeSize == (old(m.LargeSize) || old(mdatData(m)) > 4294967287)
+//@   ensures result == 8 + old(mdatData(m)) + ite(m.LargeSize, uint64(8), uint64(0))
+//@   ensures old(boxOK(m)) ==> result == uint64(mdatLen(m, ite(m.LargeSize, 16, 8))) && m.LargeSize == old(m.LargeSize)
+//@   assigns m.LargeSize
 //@ func EncodeHeaderWithSizeSW
 //@   inline
 //@ func (*MdatBox).EncodeSW
